@@ -156,7 +156,9 @@ func (c *loopCloud) CreateNetworkInterfaceV2(ctx context.Context, opts ...aliyun
 	}
 	c.next++
 	e := &loopENI{id: fmt.Sprintf("eni-c%d", c.next), idx: c.next, status: "Available", ips: map[string]bool{}}
-	for k := 1; k <= n4; k++ {
+	// an interface always has its primary IPv4 address, whatever count was asked for (the real client sends
+	// SecondaryPrivateIpAddressCount = IPCount-1 only for IPCount > 1)
+	for k := 1; k <= max(n4, 1); k++ {
 		e.ips[fmt.Sprintf("10.1.%d.%d", e.idx, k)] = true
 	}
 	for k := 1; k <= n6; k++ {
